@@ -736,7 +736,7 @@ impl<'a> W<'a> {
                     for p in ps {
                         self.expr(&p.ty, &sub("returns-type", "Try", cx));
                     }
-                    self.stmt_tagged(b, cx, "try-success-block");
+                    self.stmt_tagged(b, cx, if ps.is_empty() { "try-success-block-without-returns" } else { "try-success-block" });
                 }
                 for c in catches {
                     match c {
